@@ -174,7 +174,15 @@ func loadContracts(dirs map[string]string) (*ContractSet, error) {
 			return nil, fmt.Errorf("%s: flag like %s: must be declared in the package of the interface contract", c.Pos, lk)
 		}
 		c.Requires = append(append([]*Clause{}, src.Requires...), c.Requires...)
-		c.Ensures = append(append([]*Clause{}, src.Ensures...), c.Ensures...)
+		var ens []*Clause
+		for _, cl := range src.Ensures {
+			if strings.HasPrefix(cl.Label, "assumed-") {
+				// stays an assumption of the interface contract (reported in the trusted base), not proved per implementation
+				continue
+			}
+			ens = append(ens, cl)
+		}
+		c.Ensures = append(ens, c.Ensures...)
 		c.Modifies = append(append([]string{}, src.Modifies...), c.Modifies...)
 		c.HasModifies = c.HasModifies || src.HasModifies
 		if len(c.Results) == 0 {
